@@ -59,9 +59,14 @@ def write_if_changed(path: Path, content: str) -> bool:
 
 
 class BuildLock:
+    """writers (lake build) exclusive, readers (lean --run / #print axioms / leanchecker on the compiled library) shared"""
+
+    def __init__(self, shared=False):
+        self.shared = shared
+
     def __enter__(self):
-        self.f = open(LEAN / ".buildlock", "w")
-        fcntl.flock(self.f, fcntl.LOCK_EX)
+        self.f = open(LEAN / ".buildlock", "a")
+        fcntl.flock(self.f, fcntl.LOCK_SH if self.shared else fcntl.LOCK_EX)
         return self
 
     def __exit__(self, *a):
@@ -81,13 +86,15 @@ def lake_build(targets, timeout=3000):
 
 
 def lean_run_file(relpath, args=(), stdin=None, timeout=3000):
-    p = subprocess.run(["lake", "env", "lean", "--run", relpath] + list(args), cwd=LEAN, input=stdin,
-                       capture_output=True, text=True, timeout=timeout)
+    with BuildLock(shared=True):
+        p = subprocess.run(["lake", "env", "lean", "--run", relpath] + list(args), cwd=LEAN, input=stdin,
+                           capture_output=True, text=True, timeout=timeout)
     return p.returncode, p.stdout, p.stderr
 
 
 def lean_check_file(relpath, timeout=3000):
-    p = subprocess.run(["lake", "env", "lean", relpath], cwd=LEAN, capture_output=True, text=True, timeout=timeout)
+    with BuildLock(shared=True):
+        p = subprocess.run(["lake", "env", "lean", relpath], cwd=LEAN, capture_output=True, text=True, timeout=timeout)
     return p.returncode, p.stdout + p.stderr
 
 
@@ -191,7 +198,8 @@ def model_sources(mods):
 
 
 def leanchecker(mods, timeout=3000):
-    p = subprocess.run(["lake", "env", "leanchecker"] + list(mods), cwd=LEAN, capture_output=True, text=True, timeout=timeout)
+    with BuildLock(shared=True):
+        p = subprocess.run(["lake", "env", "leanchecker"] + list(mods), cwd=LEAN, capture_output=True, text=True, timeout=timeout)
     return p.returncode == 0, (p.stdout + p.stderr)[-2000:]
 
 
